@@ -59,6 +59,12 @@ def run(ctx):
     with V.Lock("build"):
         model = V.driver("decor")
     impl = lambda c: [os.path.join(V.BUILD, "implrun"), c]
+    # one loopback port for every simulate process of this run (the port is part of the program text)
+    import socket
+    sk = socket.socket()
+    sk.bind(("127.0.0.1", 0))
+    sim_env = dict(os.environ, INERT_BACKEND_PORT=str(sk.getsockname()[1]))
+    sk.close()
     ctx.trusted += [
         "Coq 8.16.1 kernel; axioms: none (Print Assumptions of every theorem of Props/C09.v: Closed under the global context)",
         "extraction: ExtrOcamlBasic only; OCaml 4.13.1; ocaml/common.ml + ocaml/decor_main.ml",
@@ -68,8 +74,8 @@ def run(ctx):
         "not covered: FASTLY_CONTROL / pragma tokens, falco-ignore directives (C12), @plugin annotations, tester metadata comments, remote snippets, the hash director (cannot be selected in the simulator today)",
     ]
     g = DG.DecorGen(rng)
-    n_prog = 3000 if thorough else 240
-    n_var = 50 if thorough else 21
+    n_prog = 3000 if thorough else 200
+    n_var = 56 if thorough else 28
     cases = []      # (label, base source, [(style, variant source)])
     for label, base, vs in corpus_cases():
         cases.append((label, base, [("corpus", v) for v in vs], False))
@@ -80,7 +86,7 @@ def run(ctx):
         vs = []
         for k in range(n_var):
             style = DG.STYLES[k % len(DG.STYLES)]
-            vs.append((style, DG.render(toks, DG.decorate(toks, rng, style))))
+            vs.append((style, DG.variant(toks, rng, style)))
         cases.append(("gen-%d%s" % (i, "-inject" if inject else ""), base, vs, inject))
     # flat request list: index 0 of each case is the base program
     flat = []
@@ -92,10 +98,10 @@ def run(ctx):
     r_ast = V.run_batch(impl("ast9"), hexes, hang_s=10)
     r_lint = V.run_batch(impl("lint"), ["src " + h for h in hexes], hang_s=10)
     r_lex = V.run_batch(impl("lex9"), hexes, hang_s=10)
-    r_sim = [scrub(x) for x in V.run_batch(impl("simulate"), hexes, hang_s=20)]
+    r_sim = [scrub(x) for x in V.run_batch(impl("simulate"), hexes, hang_s=20, env=sim_env)]
     # base programs simulated a second time: fields that differ between two runs of the SAME text are not compared
     base_idx = [i for i, (ci, st, s) in enumerate(flat) if st == "base"]
-    r_sim2 = dict(zip(base_idx, [scrub(x) for x in V.run_batch(impl("simulate"), [hexes[i] for i in base_idx], hang_s=20)]))
+    r_sim2 = dict(zip(base_idx, [scrub(x) for x in V.run_batch(impl("simulate"), [hexes[i] for i in base_idx], hang_s=20, env=sim_env)]))
     r_model = V.run_batch([model], ["pump " + (x or "") for x in r_lex], hang_s=30)
 
     stats = Counter()
